@@ -112,6 +112,8 @@ def gen(rng, tier, index):
                 tasks[ti].insert(pos2, {"op": "remove-watch", "w": f"d{d}", "fault": None})
     wl = {"mode": "conc", "tasks": tasks, "watches": rng.choice([0, 0, 1, 2]),
           "validator": bool(faults or rng.random() < 0.3), "faults": faults}
+    # a watch that itself updates the atom (once): notification re-enters the atom from inside an update
+    wl["reactive"] = rng.choice(["swap!", "reset!", "pyswap"]) if wl["watches"] and rng.random() < 0.25 else None
     return wl
 
 
@@ -120,7 +122,7 @@ def _gen_op(rng, g):
     if r < 0.45:
         kind = rng.choice(["swap!", "swap!", "swap-vals!", "pyswap"])
         return {"op": kind, "g": g, "extra": kind != "pyswap" and rng.random() < 0.35,
-                "fault": rng.choice([None, None, None, "throw1", "throw2", "slow", "reject"])}
+                "fault": rng.choice([None, None, None, "throw1", "throw2", "slow", "reject", "reject_eq"])}
     if r < 0.65:
         kind = rng.choice(["reset!", "reset-vals!", "pyreset"])
         return {"op": kind, "g": g, "fault": rng.choice([None, None, None, "reject"])}
@@ -168,7 +170,11 @@ def shrink(workload):
                 w = copy.deepcopy(workload)
                 w["tasks"][i][j]["extra"] = False
                 yield w
-    if workload.get("validator") and not any(o.get("fault") == "reject" for t in workload["tasks"] for o in t):
+    if workload.get("reactive"):
+        w = copy.deepcopy(workload)
+        w["reactive"] = None
+        yield w
+    if workload.get("validator") and not any(o.get("fault") in ("reject", "reject_eq") for t in workload["tasks"] for o in t):
         w = copy.deepcopy(workload)
         w["validator"] = False
         yield w
@@ -191,7 +197,7 @@ def describe():
                  "core.lpy swap! reset! swap-vals! reset-vals! compare-and-set! deref",
                  "runtime._trampoline/_TrampolineArgs", "real OS threads (one runnable at a time)"],
         "stub": ["Atom._lock (sim RLock)", "OS scheduler (seeded baton kernel)", "clock (virtual)"],
-        "fault_kinds": ["f_throw", "f_slow", "validator_reject", "preempt"],
+        "fault_kinds": ["f_throw", "f_slow", "validator_reject", "validator_reject_equal_value", "watch_updates_atom", "preempt"],
         "assumptions": ["preemption at line granularity in atom.py/reference.py/core.lpy CAS loops plus "
                         "opcode granularity in 15% of runs; C-level steps are atomic under the GIL",
                         "sim RLock implements the documented RLock contract"],
@@ -239,6 +245,9 @@ def run(workload, k):
         def wf(key, ref, old, new, _w=w):
             P.point("watch")
             st["watch"][_w].append((old, new))
+            if _w == 0 and workload.get("reactive") and not st.get("reacted"):
+                st["reacted"] = True
+                st["react"]()
         a.add_watch(f"w{w}", wf)
 
     def fault(name):
@@ -271,6 +280,10 @@ def run(workload, k):
             if flt == "reject":
                 fault("validator_reject")
                 res |= REJ
+            if flt == "reject_eq":
+                # a value EQUAL to the one it replaces that the validator nevertheless rejects (it is not an int)
+                fault("validator_reject_equal_value")
+                return float(cur)
             return res
         return f
 
@@ -308,19 +321,28 @@ def run(workload, k):
             return None
         raise ValueError(kind)
 
+    def record(opid, task, op):
+        inv = k.ev("inv", opid, op["op"])
+        try:
+            r = ("ok", _plain(do_op(op, opid)))
+        except P._k.SimAbort:
+            raise
+        except Exception as e:  # noqa: BLE001
+            r = ("exc", type(e).__name__)
+        ret = k.ev("ret", opid, r)
+        st["ops"].append(lin.Op(opid, task, inv, ret, op["op"], op, r))
+
+    def react():
+        # runs inside a watch callback, i.e. inside some task's update: one more operation of that task whose
+        # invoke-return window lies inside the outer operation's
+        fault("watch_updates_atom")
+        record("react", k.cur.name, {"op": workload["reactive"], "g": 24, "fault": None, "extra": False})
+    st["react"] = react
+
     def task_fn(ti, ops):
         def body():
             for oi, op in enumerate(ops):
-                opid = f"{ti}.{oi}"
-                inv = k.ev("inv", opid, op["op"])
-                try:
-                    r = ("ok", _plain(do_op(op, opid)))
-                except P._k.SimAbort:
-                    raise
-                except Exception as e:  # noqa: BLE001
-                    r = ("exc", type(e).__name__)
-                ret = k.ev("ret", opid, r)
-                st["ops"].append(lin.Op(opid, f"T{ti}", inv, ret, op["op"], op, r))
+                record(f"{ti}.{oi}", f"T{ti}", op)
         return body
 
     for ti, ops in enumerate(workload["tasks"]):
@@ -351,7 +373,7 @@ def _step(state, o):
     bit = 1 << op["g"] if "g" in op else 0
     flt = op.get("fault")
     if kind in MUT_SWAP:
-        if flt == "reject":
+        if flt in ("reject", "reject_eq"):
             return [(state, None)] if res == ("exc", "ExceptionInfo") else []
         if flt == "throw1":
             return [(state, None)] if res == ("exc", "Boom") else []
@@ -385,7 +407,7 @@ def _judge(workload, st):
     for o in ops:
         if o.result[0] == "exc":
             flt = o.args.get("fault")
-            allowed = {"reject": "ExceptionInfo", "throw1": "Boom", "throw2": "Boom"}.get(flt)
+            allowed = {"reject": "ExceptionInfo", "reject_eq": "ExceptionInfo", "throw1": "Boom", "throw2": "Boom"}.get(flt)
             if o.result[1] != allowed:
                 return R.verdict("violation", f"{ID}/op-raised:{o.kind}:{o.result[1]}",
                                  {"op": o.to_json(), "history": [x.to_json() for x in ops]}, faults=faults)
@@ -400,6 +422,10 @@ def _judge(workload, st):
             for old, new in pairs:
                 seen.extend([old, new])
         for v in seen:
+            if isinstance(v, float) or (isinstance(v, str) and v.replace(".", "", 1).isdigit() and "." in v):
+                return R.verdict("violation", f"{ID}/validator-bypass",
+                                 {"value": repr(v), "why": "only ints pass the validator", "history": [x.to_json() for x in ops]},
+                                 faults=faults)
             if isinstance(v, int) and not isinstance(v, bool) and v & REJ:
                 return R.verdict("violation", f"{ID}/validator-bypass",
                                  {"value": v, "history": [x.to_json() for x in ops]}, faults=faults)
